@@ -877,6 +877,10 @@ class CiderNumInt(CiderNumIntMixin, numint.NumInt):
         self.sdmx_init = sdmx_init
         self.sdmxgen = None
         self.nldfgen = None
+        self.sl_plan = None
+        self.fl_plan = None
+        # nr_rks / nr_uks use the timer; build() replaces it with a new one
+        self.timer = Timer()
         self._nlc_coeff = nlc_coeff
         super(CiderNumInt, self).__init__()
 
